@@ -393,10 +393,12 @@ def apply_to_model(model, op):
 # --------------------------------------------------------------------------------------
 # executing on the real system
 # --------------------------------------------------------------------------------------
-def execute(sys, op):
+def execute(sys, op, warn_error=False):
+    """warn_error: run the call with warnings turned into errors (a raising warning is a
+    rejected call like any other)."""
     o = op["op"]
     with warnings.catch_warnings():
-        warnings.simplefilter("ignore")
+        warnings.simplefilter("error" if warn_error else "ignore")
         if o == "add_source":
             kw = {}
             if op["group"]:
@@ -670,6 +672,109 @@ def check_lists_model(rep, model, pre="rep."):
     if sorted(nodes) != want:
         raise Fail(pre + "lists.make_diag", "make_diag() draws {} but the components are "
                    "{}".format(sorted(nodes), want))
+    got_e = sorted((e.get_source().strip('"'), e.get_destination().strip('"'))
+                   for e in gs[0].get_edges())
+    want_e = sorted((p, n["name"]) for n in model["nodes"] for p in n["parents"])
+    if got_e != want_e:
+        raise Fail(pre + "lists.make_diag_edges",
+                   "make_diag() draws the links {} but the parent->child links are {}".format(
+                       sorted(set(got_e) - set(want_e)) or got_e,
+                       sorted(set(want_e) - set(got_e)) or want_e))
+
+
+PARAM_COLS = {"vo": "vo (V)", "vdrop": "vdrop (V)", "rs": "rs (Ohm)", "rt": "rt (°C/W)",
+              "eff": "eff (%)", "ig": "ig (A)", "iq": "iq (A)", "ii": "ii (A)",
+              "iis": "iis (A)", "pwr": "pwr (W)", "pwrs": "pwrs (W)", "loss": "loss"}
+# parameters each kind stores (and therefore shows), with the constructor defaults
+KIND_PARAMS = {
+    "Source": {"vo": None, "rs": 0.0, "rt": 0.0},
+    "PLoad": {"pwr": None, "pwrs": 0.0, "rt": 0.0, "loss": False},
+    "ILoad": {"ii": None, "iis": 0.0, "rt": 0.0, "loss": False},
+    "RLoad": {"rs": None, "rt": 0.0, "loss": False},
+    "RLoss": {"rs": None, "rt": 0.0},
+    "VLoss": {"vdrop": None, "rt": 0.0},
+    "Converter": {"vo": None, "eff": None, "iq": 0.0, "iis": 0.0, "rt": 0.0},
+    "LinReg": {"vo": None, "vdrop": 0.0, "ig": 0.0, "iis": 0.0, "rt": 0.0},
+    "PSwitch": {"rs": 0.0, "ig": 0.0, "iis": 0.0, "rt": 0.0},
+    "PMux": {"rs": 0.0, "ig": 0.0, "iis": 0.0, "rt": 0.0},
+}
+
+
+def check_config_reports(rep, model, pre="cfg."):
+    """params(), limits() and phases() show what each component was configured with."""
+    nm = S.node_map(model)
+    df = rep["params"][1]
+    for rec in df.to_dict("records"):
+        rec = _plain(rec)
+        n = nm[rec["Component"]]
+        if rec["Type"] != S.TYPE_NAME[n["kind"]]:
+            raise Fail(pre + "params.type", "{!r}: Type {!r}, component is a {}".format(
+                n["name"], rec["Type"], n["kind"]))
+        if n["kind"] == "Rectifier":
+            kp = ({"vdrop": None, "rt": 0.0} if S.rect_mode(n) == "diode"
+                  else {"rs": 0.0, "ig": 0.0, "iq": 0.0, "rt": 0.0})
+        else:
+            kp = KIND_PARAMS[n["kind"]]
+        for par, col in PARAM_COLS.items():
+            got = rec[col]
+            if par not in kp:
+                want = ""
+            else:
+                v = n["params"].get(par, kp[par])
+                want = "interp" if isinstance(v, dict) else v
+            if isinstance(got, tuple):
+                got = list(got)
+            if got != want and not (isinstance(want, float) and isinstance(got, (int, float))
+                                    and not isinstance(got, bool) and got == abs(want)):
+                raise Fail(pre + "params." + par,
+                           "params(): {!r} ({}) shows {} = {!r}, configured {!r}".format(
+                               n["name"], n["kind"], col, got, want))
+    # limits: given pair unless default
+    lf = rep["limits"][1]
+    for rec in lf.to_dict("records"):
+        rec = _plain(rec)
+        n = nm[rec["Component"]]
+        for k in S.LIMIT_KEYS:
+            col = [c for c in rec if c.split(" ")[0] == k][0]
+            given = (n.get("limits") or {}).get(k)
+            want = "" if (given is None or list(given) == S.LIMITS_DEFAULT[k]) else list(given)
+            got = rec[col]
+            if got != want:
+                raise Fail(pre + "limits." + k, "limits(): {!r} shows {} = {!r}, configured "
+                           "{!r}".format(n["name"], k, got, given))
+    # phases
+    pf = rep["phases"][1]
+    if pf is None:
+        return
+    phases = list(model["phases"])
+    want_rows = {}
+    for n in model["nodes"]:
+        k, pc = n["kind"], n.get("pconf")
+        if k in ("RLoss", "VLoss", "Rectifier"):
+            act = ["N/A"]
+        else:
+            act = [p for p in phases if pc and p in pc] or ["N/A"]
+        for p in act:
+            val = {"rs (Ohm)": "", "ii (A)": "", "pwr (W)": ""}
+            if k in S.LOADS:
+                main, col = {"PLoad": ("pwr", "pwr (W)"), "ILoad": ("ii", "ii (A)"),
+                             "RLoad": ("rs", "rs (Ohm)")}[k]
+                val[col] = n["params"][main] if p == "N/A" else pc[p]
+            want_rows[(n["name"], p)] = val
+    got_rows = {}
+    for rec in pf.to_dict("records"):
+        rec = _plain(rec)
+        got_rows[(rec["Component"], rec["Active phase"])] = {
+            c: rec[c] for c in ("rs (Ohm)", "ii (A)", "pwr (W)")}
+    if set(got_rows) != set(want_rows):
+        raise Fail(pre + "phases.rows", "phases() rows: unexpected {}, missing {}".format(
+            sorted(set(got_rows) - set(want_rows))[:5], sorted(set(want_rows) - set(got_rows))[:5]))
+    for key, val in want_rows.items():
+        for c, v in val.items():
+            g = got_rows[key][c]
+            if g != v and not (isinstance(v, float) and isinstance(g, float) and g == abs(v)):
+                raise Fail(pre + "phases.value", "phases(): {} {} = {!r}, configured {!r}".format(
+                    key, c, g, v))
 
 
 def rebuilt(model, order_seed=None):
@@ -783,10 +888,12 @@ class Driver:
         self.c16_every = c16_every
         self.after_special = 0
 
-    def start(self, comp, group, rail):
+    def start(self, comp, group, rail, warn_error=False):
         from sysloss.system import System
 
-        self.ops.append({"op": "init", "comp": comp, "group": group, "rail": rail})
+        self.warn_error = warn_error
+        self.ops.append({"op": "init", "comp": comp, "group": group, "rail": rail,
+                         "warn_error": warn_error})
         with warnings.catch_warnings():
             warnings.simplefilter("ignore")
             self.sys = System("Sys", B.make_comp(comp), group=group, rail=rail)
@@ -802,7 +909,7 @@ class Driver:
         self.ops.append(op)
         before = snapshot(self.sys) if "C15" in self.focus else None
         try:
-            execute(self.sys, op)
+            execute(self.sys, op, getattr(self, "warn_error", False))
             raised = None
         except Exception as e:  # noqa
             raised = e
@@ -849,6 +956,10 @@ class Driver:
                 self.after_special += 1
         if "C14" in self.focus:
             check_wellformed(self.sys)
+        if not any(n["kind"] == "Source" for n in self.model["nodes"]):
+            # no source left (only a defect can get here): nothing more to draw from
+            stats.cls("aborted:no_source_left")
+            return "abort"
         if not self.in_sync():
             # the real system and the model disagree on the component set: a C16 matter
             if "C16" in self.focus:
@@ -860,8 +971,13 @@ class Driver:
                                sorted(n["name"] for n in self.model["nodes"])))
             stats.cls("aborted:out_of_sync")
             return "abort"
-        if "C16" in self.focus and raised is None and self.steps_ok % self.c16_every == 0:
-            self.check_c16()
+        if "C16" in self.focus and raised is None:
+            # every c16_every-th accepted step, and at once after a rename / delete / mux edit
+            if self.steps_ok % self.c16_every == 0 or tag:
+                self.check_c16()
+                self.unchecked = 0
+            else:
+                self.unchecked = getattr(self, "unchecked", 0) + 1
         return "ok"
 
     def check_c16(self):
@@ -870,6 +986,7 @@ class Driver:
         rep = run_reports(self.sys)
         check_reports_succeed(rep)
         check_lists_model(rep, self.model)
+        check_config_reports(rep, self.model)
         if self.undefined:
             self.stats.cls("c16:undefined_effect_reports_only")
             return
@@ -888,6 +1005,9 @@ class Driver:
 
     def finish(self):
         """Count the history as non-trivial by the property's rule."""
+        if "C16" in self.focus and getattr(self, "unchecked", 0) and self.in_sync():
+            self.check_c16()
+            self.unchecked = 0
         f = self.flags
         stats = self.stats
         h = jhash(self.ops)
@@ -952,7 +1072,7 @@ def replay_ops(ops, focus, stats, c16_every=1):
     """Re-execute a recorded history (bypasses Hypothesis). Raises Fail on violation."""
     d = Driver(focus, stats, c16_every)
     first = ops[0]
-    d.start(first["comp"], first["group"], first["rail"])
+    d.start(first["comp"], first["group"], first["rail"], first.get("warn_error", False))
     for op in ops[1:]:
         if d.step(op) == "abort":
             break
@@ -979,7 +1099,23 @@ def make_machine(focus, tier, c16_every=1):
                 comp = {"name": "Src0", "kind": "Source",
                         "params": draw_params(data.draw, "Source"), "limits": None}
                 rail = data.draw(st.sampled_from(["", "", "VIN"]))
-                self.d.start(comp, data.draw(st.sampled_from(GROUPS)), rail)
+                mode = data.draw(st.integers(0, 7))
+                self.d.start(comp, data.draw(st.sampled_from(GROUPS)), rail,
+                             warn_error=(mode == 7))
+                if mode in (0, 1, 2):
+                    # mux-centred start: two sources, an element in front of input 0, a PMux
+                    # over both and a load behind it, so that edits at mux inputs are frequent
+                    try:
+                        for op in mux_preamble(data.draw):
+                            if self.d.step(op) == "abort":
+                                self.dead = True
+                                break
+                        self.counter = 10
+                    except Fail as f:
+                        record["case"] = list(self.d.ops)
+                        record["fail"] = f
+                        self.failed = True
+                        raise
 
             @precondition(lambda self: not self.dead)
             @rule(data=st.data())
@@ -991,17 +1127,54 @@ def make_machine(focus, tier, c16_every=1):
                 except Fail as f:
                     record["case"] = list(self.d.ops)
                     record["fail"] = f
+                    self.failed = True
                     raise
                 if r == "abort":
                     self.dead = True
 
             def teardown(self):
-                if self.d.sys is not None:
-                    self.d.finish()
+                if self.d.sys is not None and not getattr(self, "failed", False):
+                    try:
+                        self.d.finish()
+                    except Fail as f:
+                        record["case"] = list(self.d.ops)
+                        record["fail"] = f
+                        raise
 
         return EditMachine
 
     return factory
+
+
+def mux_preamble(draw):
+    k1 = draw(st.sampled_from(["RLoss", "PSwitch", "LinReg", "Converter"]))
+    r1 = draw(st.sampled_from(["", "railA"]))
+    ops = [
+        {"op": "add_source", "comp": {"name": "SrcB", "kind": "Source",
+                                      "params": {"vo": draw(st.sampled_from([3.7, 5.0, 9.0]))},
+                                      "limits": None}, "group": "", "rail": "", "cls": []},
+        {"op": "add_comp", "parent": "Src0",
+         "comp": {"name": "InA", "kind": k1, "params": draw_params(draw, k1), "limits": None},
+         "group": "", "rail": r1, "cls": []},
+    ]
+    third = draw(st.booleans())
+    if third:
+        ops.append({"op": "add_comp", "parent": "SrcB",
+                    "comp": {"name": "InC", "kind": "RLoss", "params": {"rs": 0.05},
+                             "limits": None}, "group": "", "rail": "", "cls": []})
+    parents = [r1 or "InA", "SrcB"] + (["InC"] if third else [])
+    if draw(st.booleans()):
+        parents = [parents[1], parents[0]] + parents[2:]
+    ops += [
+        {"op": "add_comp", "parent": parents,
+         "comp": {"name": "Mux", "kind": "PMux", "params": draw_params(draw, "PMux"),
+                  "limits": None}, "group": "", "rail": draw(st.sampled_from(["", "VMUX"])),
+         "cls": []},
+        {"op": "add_comp", "parent": "Mux",
+         "comp": {"name": "LoadM", "kind": "ILoad", "params": {"ii": 0.01}, "limits": None},
+         "group": "", "rail": "", "cls": []},
+    ]
+    return ops
 
 
 def reduce_ops(ops):
